@@ -9,15 +9,20 @@ import (
 
 func (e *engine) Rule() string {
 	if *prop == "C23" {
-		return "C23: real 3-store / 2-region cluster driven by a random deterministic schedule (campaigns = leader changes, one-store partitions, message drop/dup/out-of-order delivery, heartbeat ticks) with writes, reads and malformed probes sent to leaders, followers and deposed leaders; about a third of the cases are the directed family 'partition the leader, let the others time out and elect, acknowledge a write on the new leader, read on the deposed leader before/after its own ticks, optionally with an earlier read pending and its heartbeat acknowledgements delayed across the leader change'; every admission decision, id draw, apply, completion and read is replayed through the Lean model; non-trivial = at least one request refused by the leader check, one read served, and one write acknowledged before a served read"
+		return "C23: real 3-store / 2-region cluster driven by a random deterministic schedule (campaigns = leader changes, one-store partitions, message drop/dup/out-of-order delivery, heartbeat ticks) with writes, reads and malformed probes sent to leaders, followers and deposed leaders; about 30% of the cases are the directed family 'partition the leader, let the others time out and elect, acknowledge a write on the new leader, read on the deposed leader before/after its own ticks, optionally with an earlier read pending and its heartbeat acknowledgements delayed across the leader change'; 12% elect a follower with a gated (one write per step) state machine over a paged commit backlog and read on it right after the election / mid-backlog; 12% read through the peer API on a replica whose log replication is delayed; every admission decision, id draw, apply, completion and read is replayed through the Lean model; non-trivial = one read served and one write acknowledged, plus either a request refused by the leader check or one of the directed schedules (deposed leader / gated backlog / lagging replica)"
 	}
 	return "C22: (a) random op sequences on the real command pipelines of three stores (ids drawn from the per-store counters so that they collide across stores, entries applied in a common log order on every store, timeouts, rejected duplicate registrations, id 0, entries nobody waits for; inside ValidRun's domain: accepted registrations always use the counter's id, applied entries with a live id are the proposed ones); (b) the real 3-store / 2-region cluster under a random deterministic schedule (leader changes, partitions, drop/dup/reorder) with concurrent proposals on several stores, replayed event by event through the Lean model, plus prefix-agreement / exactly-once oracles; non-trivial = proposals registered on at least two stores, an entry applied on at least two stores, and at least one waiter handed a result"
 }
 
 func (e *engine) Gen(r *hlib.Rand, tier string) []string {
 	if *prop == "C23" {
-		if r.Chance(35) {
+		switch x := r.Intn(100); {
+		case x < 30:
 			return genDeposed(r)
+		case x < 42:
+			return genBacklog(r)
+		case x < 54:
+			return genLagging(r)
 		}
 		return genCluster(r, true)
 	}
@@ -287,10 +292,84 @@ func genDeposed(r *hlib.Rand) []string {
 	return ops
 }
 
+// genBacklog: the family that attacks "WaitApplied returns only when the store has applied the
+// confirmed index".  A leader acknowledges n writes whose commit index never reaches the
+// followers, then disappears; a follower with a slow (gated) state machine is elected and
+// commits the whole backlog, which raft hands over one entry per Ready (512-byte pages, 400-byte
+// values).  Reads are issued on the new leader right after the election and/or in the middle of
+// the backlog; their ReadIndex confirmations arrive while later pages are not even begun.
+func genBacklog(r *hlib.Rand) []string {
+	ops := []string{"c.cfg maxmsg=512 pad=400", "p.skip 2 1000", "p.skip 3 2000"}
+	reg := 1 + r.Intn(nRegions)
+	l := 1 + r.Intn(nStores)
+	n := 1 + l%nStores // the store that will be elected
+	t := 1 + n%nStores // the third one
+	ops = append(ops, fmt.Sprintf("c.campaign %d %d", reg, l), "c.pump", fmt.Sprintf("c.propose %d %d", l, reg), "c.pump")
+	writes := 3 + r.Intn(5)
+	for i := 0; i < writes; i++ {
+		ops = append(ops, fmt.Sprintf("c.propose %d %d", l, reg))
+	}
+	ops = append(ops, fmt.Sprintf("c.hold %d %d", l, n), fmt.Sprintf("c.hold %d %d", l, t), "c.pump",
+		fmt.Sprintf("c.iso %d", l), fmt.Sprintf("c.gate %d", n), fmt.Sprintf("c.campaign %d %d", reg, n), "c.deliver 0", "c.deliver 0")
+	read := fmt.Sprintf("c.read %d %d", n, reg)
+	early := r.Chance(60)
+	if early {
+		ops = append(ops, read)
+	}
+	ops = append(ops, "c.pump")
+	steps := r.Intn(writes + 1)
+	mid := r.Intn(steps + 1)
+	for i := 0; i < steps; i++ {
+		if i == mid && (!early || r.Chance(40)) {
+			ops = append(ops, read, "c.pump")
+		}
+		ops = append(ops, fmt.Sprintf("c.step %d", n), "c.pump")
+	}
+	if !early && steps == 0 {
+		ops = append(ops, read, "c.pump")
+	}
+	ops = append(ops, fmt.Sprintf("c.open %d", n), "c.pump", read, "c.pump", "c.verdict")
+	return ops
+}
+
+// genLagging: reads through the peer API (ReadIndex forwarded to the leader, WaitApplied, local
+// state) on a replica that keeps hearing heartbeats and ReadIndex answers but whose log
+// replication is delayed.  The read is issued after writes the replica has not received were
+// acknowledged; it may only complete (with the newest value) once the delayed appends arrive.
+func genLagging(r *hlib.Rand) []string {
+	ops := []string{"p.skip 2 1000", "p.skip 3 2000"}
+	reg := 1 + r.Intn(nRegions)
+	l := 1 + r.Intn(nStores)
+	lag := 1 + l%nStores
+	ops = append(ops, fmt.Sprintf("c.campaign %d %d", reg, l), "c.pump")
+	for i := 0; i < r.Intn(3); i++ {
+		ops = append(ops, fmt.Sprintf("c.propose %d %d", l, reg), "c.pump")
+	}
+	ops = append(ops, fmt.Sprintf("c.hold %d %d app", l, lag))
+	for i := 0; i <= r.Intn(3); i++ {
+		ops = append(ops, fmt.Sprintf("c.propose %d %d", l, reg), "c.pump")
+	}
+	ops = append(ops, fmt.Sprintf("c.replicaread %d %d", lag, reg), "c.pump")
+	if r.Chance(50) {
+		ops = append(ops, fmt.Sprintf("c.propose %d %d", l, reg), "c.pump", fmt.Sprintf("c.replicaread %d %d", lag, reg), "c.pump")
+	}
+	if r.Chance(40) {
+		ops = append(ops, fmt.Sprintf("c.replicaread %d %d", l, reg), "c.pump")
+	}
+	ops = append(ops, "c.release", "c.pump", fmt.Sprintf("c.replicaread %d %d", lag, reg), "c.pump", "c.verdict")
+	return ops
+}
+
 func (e *engine) Nontrivial(ops, impl, model, spec []string) bool {
 	all := strings.Join(impl, ",")
 	if *prop == "C23" {
-		return strings.Contains(all, "notleader") && strings.Contains(all, "val=") && strings.Contains(all, "res=")
+		attack := false // a schedule aimed at the ReadIndex / WaitApplied assumptions
+		for _, op := range ops {
+			if strings.HasPrefix(op, "c.gate") || strings.HasPrefix(op, "c.replicaread") || strings.HasPrefix(op, "c.hold") || strings.HasPrefix(op, "c.elect") {
+				attack = true
+			}
+		}
+		return (strings.Contains(all, "notleader") || attack) && strings.Contains(all, "val=") && strings.Contains(all, "res=")
 	}
 	stores := map[string]bool{}
 	applied := map[string]bool{}
